@@ -74,14 +74,37 @@ def concretize(s, rng):
         s["place"] = SAME_PLACES[s["src"]]
         s["tgt"] = cls.split("-")[1]
     s["cls"] = cls
+    world_dims(s, rng)
+    return s
+
+
+FEATS = ["", "", "", "", "noref", "noref", "nomount", "nohead"]
+
+
+def world_dims(s, rng, srcref=None, feat=None, pre=None):
+    """Dimensions of the world the design spec does not distinguish (its prediction is the same for all values): how
+    the source is named, optional features of the registries, a target that already holds the source image."""
+    s["srcref"] = (srcref if srcref is not None else ("digest" if rng.random() < 0.25 else ""))
+    if s["tgt"] == "replace":
+        s["srcref"] = ""
+    s["feat"] = (feat if feat is not None else rng.choice(FEATS)) if s["place"] != "dir-same" and s["place"] != "dir-cross" else ""
+    s["pre"] = (pre if pre is not None else int(rng.random() < 0.3)) if s["cls"] == "cross" else 0
     return s
 
 
 def variant(s, rng):
-    """Shapes outside the design spec's prediction: attestation index, foreign layer (no `expect`)."""
+    """Inputs outside the design spec's prediction (no `expect`): attestation index, foreign layer, a data limit
+    between the sizes of the descriptors of the image."""
     s = copy.deepcopy(s)
     s.pop("expect", None)
-    if rng.random() < 0.5:
+    x = rng.random()
+    datas = [o for o in s["prog"] if o["k"] == "Data"]
+    if datas and x < 0.5:
+        for o in datas:
+            o["i"] = rng.choice([300, 500, 700, 1000, 1500])
+    elif x < 0.6:
+        s["prog"] = s["prog"][:4] + [{"k": "Data", "i": rng.choice([300, 500, 700, 1000, 1500])}]
+    elif x < 0.8:
         s["img"]["shape"] = "attest"
     else:
         s["img"]["ext"] = 1
@@ -328,7 +351,25 @@ def run(ctx):
             ({"n": 1, "hist": "L", "shape": "index", "mt": "oci", "comp": "gzip", "data": 1, "refs": 1, "ext": 0}, [{"k": "ManifestDigest", "a": "sha512", "v": "", "i": 0}], "same-tag", "reg"),
             ({"n": 1, "hist": "L", "shape": "image", "mt": "oci", "comp": "gzip", "data": 0, "refs": 1, "ext": 0}, [{"k": "ManifestDigest", "a": "sha512", "v": "", "i": 0}], "same-digest", "dir")]):
         must.append(concretize({"img": img, "prog": prog, "place": cls, "src": src, "noop": 0}, rng))
-    scns += extra + must
+    # world dimensions one at a time on a few programs that touch referrers, blobs and manifests (quick), and the full
+    # product srcref x registry features x pre-populated target on a sample of the scenarios (thorough)
+    probes = []
+    refimg = {"n": 2, "hist": "LEL", "shape": "index", "mt": "oci", "comp": "gzip", "data": 0, "refs": 1, "ext": 0, "alg": "sha256"}
+    for prog in ([{"k": "Label", "a": "x", "v": "y", "i": 0}], [{"k": "AddLayer", "a": "", "v": "", "i": 0}],
+                 [{"k": "Data", "a": "all", "v": "", "i": 0}], [{"k": "Rebase", "a": "", "v": "", "i": 0}],
+                 [{"k": "ManifestDigest", "a": "sha512", "v": "", "i": 0}], [{"k": "Compress", "a": "zstd", "v": "", "i": 0}]):
+        for cls, src in (("same-tag", "reg"), ("cross", "reg"), ("cross", "dir")):
+            for dims in ({"srcref": "digest"}, {"feat": "noref"}, {"feat": "nomount"}, {"feat": "nohead"}, {"pre": 1}):
+                b = concretize({"img": dict(refimg), "prog": copy.deepcopy(prog), "place": cls, "src": src, "noop": 0}, rng)
+                probes.append(world_dims(b, rng, srcref=dims.get("srcref", ""), feat=dims.get("feat", ""), pre=dims.get("pre", 0)))
+    if thorough:
+        for b in rng.sample([s for s in scns if "expect" in s and s["prog"]], 160):
+            for srcref in ("", "digest"):
+                for feat in ("", "noref", "nomount", "nohead"):
+                    for pre in (0, 1):
+                        c = copy.deepcopy(b)
+                        probes.append(world_dims(c, rng, srcref=srcref, feat=feat, pre=pre))
+    scns += extra + must + probes
     for i, s in enumerate(scns):
         s["id"] = "s%d" % i
 
@@ -477,7 +518,9 @@ def run(ctx):
         "exhaustive_note": "TLC is exhaustive over the stated universes of the design spec; the replay on the real code is one "
                            "scenario per option of the vocabulary, every add/remove pair and a seeded sample of programs of length 0..5",
         "scenarios": len(scns), "single_option_scenarios": n_single, "pair_scenarios": n_pairs, "random_scenarios": len(rand_all),
-        "unpredicted_shape_scenarios": len(extra), "regression_scenarios": len(must),
+        "unpredicted_shape_scenarios": len(extra), "regression_scenarios": len(must), "world_dimension_scenarios": len(probes),
+        "world_dimension_values": {k: sorted({str(s.get(k, "")) for s in scns}) for k in ("srcref", "feat", "pre", "place", "tgt")},
+        "image_dimension_values": {k: sorted({str(s["img"].get(k, "")) for s in scns}) for k in ("n", "shape", "mt", "comp", "data", "refs", "ext", "alg")},
         "option_kinds_driven": vocabulary,
         "apply_errors": errors, "traces_with_rejected_events": len(bad),
         "violation_classes": sorted(classes),
